@@ -14,15 +14,20 @@ REPO = os.environ.get('TV_REPO', '/repo')
 _loaded = None
 
 
-def load(repo=None, fresh=False):
-    """returns the torchtt package loaded from `repo` with torch -> symtorch and numpy -> facade."""
+def load(repo=None, fresh=False, shim='value'):
+    """returns the torchtt package loaded from `repo` with torch -> symtorch (shim='value') or shapetorch
+    (shim='shape') and numpy -> facade."""
     global _loaded
     repo = repo or REPO
-    if _loaded is not None and not fresh and _loaded[0] == repo:
+    if _loaded is not None and not fresh and _loaded[0] == (repo, shim):
         return _loaded[1]
     sys.dont_write_bytecode = True
-    from . import symtorch, symnumpy
+    from . import symnumpy
     from .scalar import sym_isinstance
+    if shim == 'shape':
+        from . import shapetorch as symtorch
+    else:
+        from . import symtorch
 
     for k in [k for k in sys.modules if k == 'torchtt' or k.startswith('torchtt.')]:
         del sys.modules[k]
@@ -55,8 +60,20 @@ def load(repo=None, fresh=False):
     for name, m in list(sys.modules.items()):
         if (name == 'torchtt' or name.startswith('torchtt.')) and m is not None:
             m.isinstance = sym_isinstance
-    _loaded = (repo, torchtt)
+            if shim == 'shape' and hasattr(m, 'rank_chop'):
+                m.rank_chop = _havoc_rank_chop          # stub: any rank in [1, len(s)] (the kernel itself is checked under C01)
+    torchtt.__tv_shim__ = shim
+    _loaded = ((repo, shim), torchtt)
     return torchtt
+
+
+def _havoc_rank_chop(s, eps):
+    from . import apoly
+    from .explorer import cur
+    n = s.size
+    r = apoly.new_dim('rank', 1, None)
+    cur().assume(r <= n)
+    return r
 
 
 def functions_encoded(objs):
